@@ -140,7 +140,7 @@ impl<'a> Norm<'a> {
                 self.bump("R-ASSERT");
                 Some(parse_quote!(vx_unreachable()))
             }
-            "vec" => {
+            "vec" | "smallvec" | "smallvec_inline" => {
                 // vec![e; n] -> vx_vec_repeat(e, n); other forms stay
                 let toks = mac.tokens.to_string();
                 if toks.contains(';') {
